@@ -6,10 +6,13 @@ out="$(realpath "$1")"; shift
 wt=$(mktemp -d /tmp/seedwt.XXXXXX); rmdir "$wt"
 git -C /repo worktree add -q --detach "$wt" HEAD || exit 3
 cd "$wt"
-echo "--- demo on clean tree"; PYTHONPATH="$wt" timeout 300 /venv/bin/python "$out/demo.py" >/dev/null 2>&1; echo "demo_clean_exit=$?"
+# everything the tests / the demo leave behind goes to a scratch TMPDIR that is removed afterwards
+scratch=$(mktemp -d /tmp/seedtmp.XXXXXX)
+echo "--- demo on clean tree"; TMPDIR="$scratch" PYTHONPATH="$wt" timeout 300 /venv/bin/python "$out/demo.py" >/dev/null 2>&1; echo "demo_clean_exit=$?"
 if ! git apply "$out/patch.diff"; then echo "PATCH DOES NOT APPLY"; cd /; git -C /repo worktree remove --force "$wt"; exit 3; fi
-echo "--- tests with change"; PYTHONPATH="$wt" timeout 900 /venv/bin/python -m pytest -q -p no:cacheprovider --timeout=900 dds_tests 2>&1 | tail -1
-echo "--- demo with change"; PYTHONPATH="$wt" timeout 300 /venv/bin/python "$out/demo.py" >/dev/null 2>&1; echo "demo_changed_exit=$?"
+echo "--- tests with change"; TMPDIR="$scratch" PYTHONPATH="$wt" timeout 900 /venv/bin/python -m pytest -q -p no:cacheprovider --timeout=900 dds_tests 2>&1 | tail -1
+echo "--- demo with change"; TMPDIR="$scratch" PYTHONPATH="$wt" timeout 300 /venv/bin/python "$out/demo.py" >/dev/null 2>&1; echo "demo_changed_exit=$?"
+rm -rf "$scratch"
 cd /verif
 mkdir -p .scratch
 for p in "$@"; do
